@@ -20,6 +20,7 @@ import (
 	"os/exec"
 	"regexp"
 	"runtime"
+	"sort"
 	"strings"
 	"sync/atomic"
 
@@ -254,6 +255,7 @@ func runRacePass(r *ev.Run) map[string]interface{} {
 	se := werr.String()
 	reports := strings.Split(se, "WARNING: DATA RACE")[1:]
 	nrep, keys := 0, map[string]bool{}
+	outside := map[string]bool{}
 	for _, rep := range reports {
 		if i := strings.Index(rep, "=================="); i > 0 {
 			rep = rep[:i]
@@ -289,6 +291,19 @@ func runRacePass(r *ev.Run) map[string]interface{} {
 			ev.HarnessError("race report without a gocoin frame (harness race): %s", shortStr(rep, 1200))
 		}
 		k := "data-race/" + fn
+		// C18 speaks about handlers that panic, keep a lock or spin - not about data-race freedom as such.
+		// A race is a verdict only where it can take the node down by itself: both sides inside a Go map
+		// (the runtime aborts with "concurrent map read and map write" / "concurrent map writes") or one
+		// side growing a slice that the other side indexes. A race on a plain word (e.g. the feefilter
+		// handler's c.X.MinFeeSPKB, unchanged tree) is recorded in the evidence and not reported.
+		crashCapable := strings.Contains(rep, "runtime.mapa") || strings.Contains(rep, "runtime.mapdelete") || strings.Contains(rep, "runtime.mapiter") || strings.Contains(rep, "runtime.growslice")
+		if !crashCapable {
+			if !outside[k] {
+				outside[k] = true
+				fmt.Fprintln(os.Stderr, "NOTE data race outside C18's statement (no crash by itself):", k, loc)
+			}
+			continue
+		}
 		if !keys[k] {
 			keys[k] = true
 			r.Report(k, "Go race detector, free-running pass (a message handler on the connection's goroutine against the node's main-thread routines): unsynchronised access at "+fn+" ("+loc+"): "+shortStr(rep, 1800),
@@ -334,6 +349,12 @@ func runRacePass(r *ev.Run) map[string]interface{} {
 	info["scenarios"] = sc
 	info["operations"] = ops
 	info["race_reports"] = nrep
+	var ol []string
+	for k := range outside {
+		ol = append(ol, k)
+	}
+	sort.Strings(ol)
+	info["data_races_outside_the_statement"] = ol
 	return info
 }
 
